@@ -265,6 +265,21 @@ def _validate_once(module, events, cfg=None, env=None, timeout=3600, keep=None, 
             "wall_s": r["wall_s"], "states": r["states"], "distinct": r["distinct"]}
 
 
+def one_per_trace(behaviours, rng, key="steps"):
+    """Behaviours printed from an invariant during `tlc -simulate` when the invariant fires at a step COUNT:
+    TLC evaluates the invariant on every candidate successor of the last step, so each simulated trace is
+    printed once per candidate - many behaviours that differ in their last step only.  Keep one per trace
+    (grouped by everything but the last step, in order of appearance; the member is drawn with *rng*)."""
+    groups, order = {}, []
+    for b in behaviours:
+        k = json.dumps(b[key][:-1], sort_keys=True)
+        if k not in groups:
+            groups[k] = []
+            order.append(k)
+        groups[k].append(b)
+    return [rng.choice(groups[k]) for k in order]
+
+
 def validate_trace(module, events, cfg=None, env=None, timeout=3600, keep=None, heap="6g"):
     """_validate_once, made total.  A trace module is written to give a verdict on every event, but an
     observation of a shape the module does not foresee (a result vector of another length, a missing field)
